@@ -26,7 +26,7 @@ pub trait Latch<P>: Deref<Target = P> {}
 
 impl<P> ReadLatch<P> {
     pub(crate) fn new(lock: &Arc<RwLock<P>>) -> Self {
-        Self(lock.read_arc())
+        Self(lock.read_arc_recursive())
     }
 }
 
